@@ -130,14 +130,14 @@ C13 = {
         "Session::action/receive rollback on failure: decided under C14",
     ],
     "trusted_base": COMMON_TRUST,
-    "level_text": "Bounded inductive proof by CBMC over the real revert/insert/delete/add_command code of both perspective kinds: one operation from an arbitrary (field-by-field constructed) state is compared with a flat map model; revert(i) is shown to depend only on commands[..i] (linear) / fact_log[..i] (session), also when the current fact overlay is arbitrary garbage, when writes of a failed rule are pending at equal command count, and when the session overlay Arc is shared. Because pre-states are arbitrary, the step results compose to histories of any length within the size bound; two direct 3-operation history harnesses cross-check the composition. The LITERAL statement (checkpoint taken while writes are pending) is a separate harness and FAILS for LinearPerspective (see known finding / report).",
-    "level_note": "Trusted: Kani/CBMC; std BTreeMap replaced by harness OrdMap (checked separately by vmap_* harnesses); memory-safety checks off; sizes as in bounds.",
+    "level_text": "Bounded inductive proof by CBMC over the real revert/insert/delete/add_command code: one operation from an arbitrary (field-by-field constructed) state is compared with a flat map model; revert(i) is shown to keep exactly commands[..i] (linear) / fact_log[..i] (session), to leave nothing pending, and to rebuild the visible facts as base;retained updates from an overlay that is arbitrary garbage - when writes of a failed rule are pending at equal command count, when commands are dropped, and when the session overlay Arc is shared; at equal count with nothing pending nothing changes. Because pre-states are arbitrary, the steps compose (argument written in harness/runtime/revert.rs) to histories of any length within the size bound. The LITERAL statement (a checkpoint taken while writes are pending) is a separate harness and FAILS for LinearPerspective: recorded as known finding (native test in replays/C13).",
+    "level_note": "Trusted: Kani/CBMC; std BTreeMap replaced by harness OrdMap (checked separately by vmap_* harnesses); memory-safety checks off; vectors read back by revert live in stack buffers; sizes as in bounds. KNOWN FINDING: LinearPerspective::checkpoint records only commands.len(), so a checkpoint taken while fact writes are pending makes revert drop the pre-checkpoint writes too (harness c13_linear_checkpoint_with_pending_writes; in-tree callers only checkpoint with nothing pending). The session half relies on C14 for 'a session write changes exactly its key and is logged', which CBMC could NOT decide (see C14 outside_claim): for SessionPerspective the write step is by inspection (two lines: fact_log.push + map insert).",
 }
 
 # ---------------------------------------------------------------------------------------------
 C14 = {
     "id": "C14",
-    "level": "proof",
+    "level": "other",
     "units": [{
         "group": "runtime_vmap", "timeout_s": 1200,
         "harnesses": [
@@ -191,7 +191,8 @@ C14 = {
     ],
     "trusted_base": COMMON_TRUST,
     "level_text": "Bounded inductive proof by CBMC over the real session code: for ANY committed table and ANY session overlay (built field by field) exact and prefix queries equal the flat map 'committed facts then session writes', in ascending key order without tombstones or duplicates; every session write changes exactly its key and is logged; and the real Session::action / Session::receive, driven by a policy that writes and then fails, leave all queries and the log unchanged and roll the sinks back (success applies exactly the script). Arbitrary pre-states make the step results valid for histories of any length within the size bound.",
-    "level_note": "Trusted: Kani/CBMC; std BTreeMap replaced by harness OrdMap (checked separately, unit of C13); committed index = harness table (LinearFactIndex decided in C12); memory-safety checks off.",
+    "level_note": "Trusted: Kani/CBMC; std BTreeMap replaced by harness OrdMap (checked separately, unit of C13); committed index = harness table; memory-safety checks off.",
+    "explanation": "Decided kernel: (1) exact queries of a session over ANY committed table (<=3 facts) and ANY session overlay (<=3 values/tombstones) equal 'committed facts then session writes' (tombstone hides, newer value wins, absent name sees nothing); (2) PrefixIter yields exactly the overlay entries under a prefix in ascending order; (3) SessionPerspective::revert (C13 harnesses c13_session_revert_step_*) restores fact_log[..i] and the overlay replay(fact_log[..i]) from any state, which is the mechanism Session::action/receive use on failure. NOT decided (CBMC > 14 GB or > 20 min at the smallest sizes, see outside_claim): the sorted merge of QueryIterator, the session write step, and the real Session::action/receive calls. 'No session operation changes the graph' holds by signature (&ClientState, no storage handle).",
 }
 
 # ---------------------------------------------------------------------------------------------
@@ -256,8 +257,45 @@ C12 = {
 # Which harnesses are actually part of the checks (name -> (tier, measured seconds on the shared,
 # heavily loaded box; "Verification Time" reported by Kani)). Harnesses defined in the .rs files
 # but absent here did NOT finish within 14 GB / 20 min (see DROPPED) and are not run.
-RUN = {}
-DROPPED = {}
+RUN = {
+    # C13
+    "vmap_point_ops_step": (Q, 14), "vmap_ordered_views": (Q, 26),
+    "c13_linear_write_step_prior_small": (Q, 128), "c13_linear_write_step_noprior": (Q, 145),
+    "c13_linear_write_step_prior_full": (T, 252),
+    "c13_linear_revert_step_failed_rule_fresh": (Q, 12), "c13_linear_revert_step_failed_rule_cmd": (Q, 184),
+    "c13_linear_revert_step_drop_cmd": (Q, 114), "c13_linear_revert_step_nothing_pending": (Q, 149),
+    "c13_linear_revert_step_two_cmds_keep1": (T, 161), "c13_linear_revert_step_two_cmds_keep2": (T, 288),
+    "c13_linear_add_command_step_first": (Q, 238), "c13_linear_add_command_step_third": (T, 227),
+    "c13_linear_checkpoint_with_pending_writes": (Q, 54),
+    "c13_session_revert_step_small": (Q, 80), "c13_session_revert_step_to_empty": (Q, 48), "c13_session_revert_step_noop": (Q, 79),
+    "c13_session_revert_step_full": (T, 120),
+    # C14
+    "c14_action_step_min": (T, None), "c14_receive_step_min": (T, None), "c14_overlay_prefix_min": (T, None),
+    "c14_overlay_exact_small": (Q, 93), "c14_overlay_exact_full": (T, 110), "c14_prefix_iter_small": (T, 406),
+    # C12
+    "c12_index_chain_exact_small": (Q, 190), "c12_index_chain_exact_deep": (T, 269),
+    "c12_find_prefixes_small": (Q, 41), "c12_find_prefixes_mixed": (T, 222), "c12_replay_step_no_prior": (Q, 90),
+}
+DROPPED = {
+    "C13": [
+        "c13_linear_write_step_prefix / c13_linear_revert_step_prefix / c13_session_revert_step_prefix: the revert/write steps observed through query_prefix (timeout 20 min); the exact-query variants are decided, query_prefix itself only at the level of find_prefixes / PrefixIter (C12, C14)",
+        "c13_linear_history3 / c13_session_history3: direct 3-operation symbolic histories (timeout 20 min: symbolic operation choice makes every Vec length symbolic); the inductive steps are decided instead",
+        "c13_linear_revert_step_two_cmds_noprior: not re-measured after the stack-buffer change",
+    ],
+    "C14": [
+        "c14_write_step_* (SessionPerspective::insert/delete from any state): > 14 GB in every size, even on an empty overlay (Arc::make_mut's clone path + fact_log push)",
+        "c14_merge_iter_* (session QueryIterator sorted merge over harness iterators, 2+2 items): > 14 GB (Peekable + key re-collection `k.iter().cloned().collect()` give symbolic-size allocations)",
+        "c14_overlay_prefix_* (full query_prefix stack): timeout / > 14 GB for 2+2 entries",
+        "c14_action_step_* / c14_receive_step_* (real Session::action / receive with a failing policy): timeout 20 min at base<=1, log 1, script 1",
+        "c14_overlay_exact_mixed, c14_prefix_iter_mixed (compound keys): no verdict within the time available",
+    ],
+    "C12": [
+        "c12_index_chain_prefix_* (LinearFactIndex::query_prefix over >= 2 chained indexes): > 14 GB already for 2 indexes x 1 entry",
+        "c12_perspective_chain_* (perspective over prior perspective over committed index, exact and prefix): > 14 GB / timeout at 1 entry per level",
+        "c12_write_step_over_index / c12_replay_step_over_index / c12_write_step_prefix / c12_write_step_mixed: > 14 GB / timeout (every query of a perspective whose prior is a committed index re-fetches and rebuilds the index)",
+        "c12_compact_* (LinearStorage::compact): > 14 GB for 2 indexes",
+    ],
+}
 
 
 def finalize(spec):
